@@ -125,12 +125,29 @@ theorem encode_eq_all (o o' : TokObj) (ts : List Tok) (h0 : o.dictionarySize_ = 
         | none => simp [hts'] at ih
         | some ids => simp [hts'] at ih ⊢; exact ih
 
-/-- a configuration outside `CfgWF` and `CfgNonneg`: duplicate step size 2, negative step size -5 -/
-def dupObj : TokObj := initObj none 1 (60, 60) (some [2, -5, 2]) (some [4]) [127] (4, 4) true true true true true
+/-- a configuration outside `CfgWF` and `CfgNonneg`: duplicate step size 2, negative step size -5.
+    Since the repair of finding D31 (`__init__` stores `sorted(set(step_sizes))`) such an object is no longer built by `__init__`
+    (`dupObj_not_constructed` below: `step_sizes=[2, -5, 2]` is stored as `[-5, 2]`); it is a RAW object state, the one an object
+    has after `tk.step_sizes = [-5, 2, 2]` (before the repair: the state `__init__` left for `step_sizes=[2, -5, 2]`).  The theorems
+    of this section are about every object state, so they keep covering it. -/
+def dupObj : TokObj :=
+  { initObj none 1 (60, 60) (some [-5, 2]) (some [4]) [127] (4, 4) true true true true true with stepSizes := [-5, 2, 2] }
+
+/-- through the translated `__init__` the repeated step is removed (the repair of D31): the object state `dupObj` differs from
+    what the constructor builds for `step_sizes=[2, -5, 2]` exactly in the repeated 2 -/
+theorem dupObj_not_constructed :
+    (initObj none 1 (60, 60) (some [2, -5, 2]) (some [4]) [127] (4, 4) true true true true true).stepSizes = [-5, 2] ∧
+    dupObj.stepSizes = [-5, 2, 2] ∧
+    dupObj = { initObj none 1 (60, 60) (some [2, -5, 2]) (some [4]) [127] (4, 4) true true true true true with
+                 stepSizes := [-5, 2, 2] } := by
+  refine ⟨by decide, rfl, ?_⟩
+  unfold dupObj initObj
+  congr 1
 
 /-- non-vacuity: `dupObj` satisfies the hypotheses of `decode_eq_all`, is not `CfgWF` and not `CfgNonneg`; id 5 (the first
-    `rst_02`) was overwritten by id 6 (replayed on /repo: `decode([5])` raises KeyError, `decode([4, 6])` is
-    `['rst_-5', 'rst_02']`, `dictionary_size` 9 with 8 keys) -/
+    `rst_02`) was overwritten by id 6 (replayed on the unpatched /repo through `__init__`, and on the patched source on the raw
+    object `tk.step_sizes = [-5, 2, 2]`, dictionaries emptied, `_construct_dictionary()` called: `decode([5])` raises KeyError,
+    `decode([4, 6])` is `['rst_-5', 'rst_02']`, `dictionary_size` 9 with 8 keys) -/
 example : dupObj.dictionarySize_ = 0 ∧ dupObj.dictionary = [] ∧ ¬ (cfgOf dupObj).steps.Nodup ∧ ¬ CfgNonneg (cfgOf dupObj) := by
   decide
 example : SCoda.decode (cfgOf dupObj) [5] = none ∧
